@@ -42,6 +42,7 @@ type Obligation struct {
 	status string // filled by the solver stage
 	result SolveResult
 	Cond   Term
+	pre    bool // decided while generating (condition folded to true): no solver call
 }
 
 type deferred struct {
